@@ -220,7 +220,7 @@ def run_coexistence(ctx, prop):
             r = ctx.tlc('Coexist.gen %s' % fam, 'Coexist', CFG % (q(classes), q(data), 3, 'FALSE', 'FALSE', 'INVARIANT Emit'), workers=1, timeout=900)
             for b in r.tagged('BEH'):
                 behs[json.dumps(b, sort_keys=True)] = b
-        num = {'bivariate': 500, 'univariate': 400, 'multivariate': 80}[fam] * (1 if quick else 12)
+        num = {'bivariate': 500, 'univariate': 400, 'multivariate': 80}[fam] * (1 if quick else 6)
         r = T.run('Coexist', CFG % (q(classes), q(data), 6, 'TRUE' if fam != 'bivariate' else 'FALSE', 'FALSE', 'INVARIANT Emit'), workers=1,
                   simulate='num=%d' % num, depth=8, seed=ctx.seed + 11, timeout=900)
         ctx.note_tlc('Coexist.simulate %s' % fam, r)
